@@ -14,6 +14,7 @@
 
 #include "clang/AST/ASTConsumer.h"
 #include "clang/AST/ASTContext.h"
+#include "clang/AST/RecordLayout.h"
 #include "clang/AST/RecursiveASTVisitor.h"
 #include "clang/AST/ParentMap.h"
 #include "clang/AST/ExprCXX.h"
@@ -868,6 +869,11 @@ struct Extractor : RecursiveASTVisitor<Extractor> {
 		J.attribute("t", typeStr(ctx.getRecordType(rd)));
 		if(rd->isLambda()) J.attribute("lambda", true);
 		if(rd->isUnion()) J.attribute("union", true);
+		if(rd->isCompleteDefinition() && !rd->isDependentType() && !rd->isInvalidDecl()) {
+			// object size in bytes (rules compare it with the room a placement-new is given)
+			const ASTRecordLayout &lay = ctx.getASTRecordLayout(rd);
+			J.attribute("size", (int64_t)lay.getSize().getQuantity());
+		}
 		J.attributeBegin("bases");
 		J.arrayBegin();
 		for(auto &b : rd->bases())
